@@ -434,6 +434,45 @@ theorem C16_text_precedence {T : Type} (guard : Bool) (lead k : Nat) (o : Opd) (
       exact hdr x hx)
     simpa [List.map_map, Function.comp_def] using this
 
+/-- **from the text to the documents, marker lists**: for every layout of `[+|-]x₀ [+|-]x₁ … [+|-]xₙ`
+    (juxtaposed, `n ≥ 1`, every `xᵢ` an item of `C16_print_parse_boosted` whose tree is a leaf: a
+    word, phrase, range, set, `*`, `name:*`, with or without a field prefix) the strict parser accepts
+    the text and the tree it returns means: every `+` operand holds, no `-` operand holds, and — when
+    there is no `+` operand — some unmarked operand holds (default mode; all unmarked operands in
+    conjunction mode): `boolSem` with the mode's default occur for the unmarked ones. -/
+theorem C16_text_markers {T : Type} (guard : Bool) (lead k : Nat) (occ : Option Occur) (o : Opd)
+    (ms : List (Option Occur × Opd × Nat)) (hne : ms ≠ [])
+    (ho : ∃ b, WFB b o) (hm : ∀ x ∈ ms, ∃ b, WFB b x.2.1)
+    (hl : ∀ e ∈ markEntries occ o ms, ∃ l, e.2 = .leaf l)
+    (m : Mode) (res : CLeaf → LAst T) (v : T → Bool)
+    (hd : ∀ e ∈ markEntries occ o ms, isDead (toLogical m res e.2) = false) :
+    ∃ t, parseStrictWith guard (printList lead occ o (markItems ms) k []) = .tree t
+      ∧ semAst m res v t
+        = boolSem ((markEntries occ o ms).map fun e => (e.1.getD m.occ, semAst m res v e.2)) := by
+  have hsafe : safeWith m false (listTree occ o (markItems ms)) = true := by
+    rw [listTree_marks occ o ms hne, lenientFold_map_rawOf _ (by simp [markEntries, marksItems, earlyOperand])]
+    exact marks_safe m _ hl
+  refine ⟨rewrite (listTree occ o (markItems ms)), ?_, ?_⟩
+  · refine C16_print_parse_boosted guard lead occ o (markItems ms) k ho ?_
+    intro it hi
+    simp only [markItems, List.mem_map] at hi
+    obtain ⟨x, hx, rfl⟩ := hi
+    exact hm x hx
+  · rw [C16_rewrite_preserves_sem m res v _ hsafe, listTree_marks occ o ms hne]
+    exact C16_markers m res v (markEntries occ o ms) hd
+
+/-- `+a  -"b c" t:d`: the hypotheses hold -/
+example :
+    let ms : List (Option Occur × Opd × Nat) := [(some .mustNot, phraseEscOpd ['b', ' ', 'c'] .none, 1), (none, fieldWordOpd ['t'] ['d'], 0)]
+    printList 0 (some .must) (wordOpd ['a']) (markItems ms) 0 []
+      = ['+', 'a', ' ', ' ', '-', '"', 'b', ' ', 'c', '"', ' ', 't', ':', 'd']
+    ∧ (∀ e ∈ markEntries (some .must) (wordOpd ['a']) ms, ∃ l, e.2 = .leaf l)
+    ∧ (markEntries (some .must) (wordOpd ['a']) ms).map (·.1) = [some .must, some .mustNot, none] := by
+  refine ⟨by decide, ?_, rfl⟩
+  intro e he
+  simp only [markEntries, List.map_cons, List.map_nil, List.mem_cons, List.mem_nil_iff, or_false] at he
+  rcases he with rfl | rfl | rfl <;> exact ⟨_, rfl⟩
+
 /-- **`rewrite_ast` is safe on folded chains**: the tree folded from `a₀ op₁ a₁ … opₙ aₙ` satisfies
     the side condition of `C16_rewrite_preserves_sem` as soon as the operands' own trees do (every
     entry of the folded tree carries an explicit occur, so nothing is unwrapped with a changed occur) -/
